@@ -127,57 +127,27 @@ theorem splitDash_range (ds1 ds2 : Bytes) (h : ds1.all isDigit = true) :
 /-- the number `i` lies in `[start, stop)` -/
 def Range.has (r : Range) (i : Int) : Prop := r.start ≤ i ∧ i < r.stop
 
-/-- the intersection with `[i, i+1)` has size 1 when `i` is in the range, 0 otherwise; the `int` subtraction never overflows -/
-theorem size_inter_probe (e : Range) (i : Int) :
-    (e.intersection ⟨i, i + 1⟩).size = some (if e.start ≤ i ∧ i < e.stop then 1 else 0) := by
-  simp only [Range.intersection, Range.size]
-  by_cases hin : e.start ≤ i ∧ i < e.stop
-  · have h1 : max e.start i = i := by omega
-    have h2 : min e.stop (i + 1) = i + 1 := by omega
-    have h3 : i + 1 > i := by omega
-    have h4 : fitsInt (i + 1 - i) = true := by
-      have : i + 1 - i = 1 := by omega
-      rw [this]; decide
-    have h5 : i + 1 - i = 1 := by omega
-    simp [h1, h2, h3, hin, subInt, h4]
-    simp [h5]
-  · have : ¬ (min e.stop (i + 1) > max e.start i) := by omega
-    simp [this, hin]
-
-theorem matchLoop_spec (rs : List Range) (i : Int) :
-    ∃ b, matchLoop ⟨i, i + 1⟩ rs = some b ∧ (b = true ↔ ∃ r ∈ rs, r.has i) := by
+/-- `match(i)` is membership in the stored ranges, for every integer `i` -/
+theorem matchInt_spec (rs : List Range) (i : Int) : matchInt rs i = true ↔ ∃ r ∈ rs, r.has i := by
   induction rs with
-  | nil => exact ⟨false, rfl, by simp⟩
+  | nil => simp [matchInt]
   | cons e es ih =>
-    simp only [matchLoop, size_inter_probe]
+    simp only [matchInt]
     by_cases hin : e.start ≤ i ∧ i < e.stop
-    · refine ⟨true, by simp [hin], ?_⟩
-      simp only [true_iff]
+    · have : (decide (e.start ≤ i) && decide (i < e.stop)) = true := by simp [hin]
+      simp only [this, if_true, true_iff]
       exact ⟨e, List.mem_cons_self, hin⟩
-    · obtain ⟨b, hb, hiff⟩ := ih
-      refine ⟨b, by simp [hin, hb], ?_⟩
-      rw [hiff]
+    · have : (decide (e.start ≤ i) && decide (i < e.stop)) = false := by
+        cases h : (decide (e.start ≤ i) && decide (i < e.stop)) with
+        | false => rfl
+        | true => simp at h; exact absurd h hin
+      simp only [this, Bool.false_eq_true, if_false, ih]
       constructor
       · rintro ⟨r, hr, hh⟩; exact ⟨r, List.mem_cons_of_mem _ hr, hh⟩
       · rintro ⟨r, hr, hh⟩
         rcases List.mem_cons.mp hr with rfl | hr
         · exact absurd hh hin
         · exact ⟨r, hr, hh⟩
-
-/-- `match(i)` is defined and is membership in the stored ranges for every `int` below INT_MAX -/
-theorem matchInt_spec (rs : List Range) (i : Int) (hlo : INT_MIN ≤ i) (hhi : i < INT_MAX) :
-    ∃ b, matchInt rs i = some b ∧ (b = true ↔ ∃ r ∈ rs, r.has i) := by
-  have hf : fitsInt (i + 1) = true := by
-    have e1 := INT_MAX_eq; have e2 := INT_MIN_eq
-    simp only [fitsInt, Bool.and_eq_true, decide_eq_true_eq]
-    constructor <;> omega
-  simp only [matchInt, addInt, hf, if_true]
-  exact matchLoop_spec rs i
-
-/-- `match(INT_MAX)` evaluates `i+1` in `int`: undefined behaviour, whatever the configured list is -/
-theorem matchInt_intMax (rs : List Range) : matchInt rs INT_MAX = none := by
-  have : fitsInt (INT_MAX + 1) = false := by decide
-  simp [matchInt, addInt, this]
 
 /-! ### parse -/
 
